@@ -1,5 +1,13 @@
 """C19 — runs leave inputs untouched, scratch space empty, and do not interfere.
 
+Histories: mapping runs (run_mapping) sharing scratch and output directories (success after success, after
+failure, stale files under every temporary-name pattern, obsm, log of an earlier run), the same WITHOUT a scratch
+directory (tmp_dir=None: result buffer in extended_result_dir = the output directory / another directory / the
+system temporary directory; TMPDIR and the working directory are inside the sandbox and observed), concurrent
+pairs, the three preparatory stages, and the type-assignment stage called DIRECTLY with a results_output_path
+that is shared (chunk files of an earlier run under every plausible buffer name, after a run that was killed,
+after a successful run, two calls at the same time).
+
 Every run of a real stage happens in a child interpreter under strace
 (harness/fstrace.py).  Per traced run:
  (a) correspondence: the observed operation trace is accepted by the extracted acceptor
@@ -784,7 +792,7 @@ def history_assign(ctx, k):
     stale1 = dict(plant, stale_chunks={'from': 'assign-earlier', 'chunk_size': c_e, 'dirs': dirs})
     stale2 = {'stale_chunks': {'from': 'assign-earlier', 'chunk_size': c_now, 'dirs': dirs}}
     bad_r0 = c_e * rng.randrange(1, -(-n_rows // c_e)) if n_rows > c_e else 0
-    fault = {'how': rng.choice(['exit', 'raise']), 'code': 3, 'r0': bad_r0}
+    fault = {'how': rng.choice(['exit', 'raise']), 'code': 3, 'r0': bad_r0, 'delay': 0.3}
     tmps = ['same', 'other', 'none']
     H = 'assign-stage:'
     jobs = [
@@ -937,8 +945,20 @@ def run(ctx):
         'HDF5 H5Fcreate probes an existing file with open(O_RDWR) before truncating it: the probe is dropped when the next '
         'operation of that process on that path is the truncating create (fstrace.to_ops)',
         'gc.collect() runs before a run counts as returned (destructor-time cleanup of FileTracker / AnnDataRowIterator)',
-        'a scratch directory is always given (tmp_dir is not None); concurrent runs use distinct output file names and a '
-        'private copy of the query when obsm_key is set',
+        'mapping runs are made with a scratch directory and without one (tmp_dir=None: the run is then given a system '
+        'temporary directory (TMPDIR) and a working directory inside the sandbox; the system temporary directory is the '
+        'scratch root of the model); concurrent runs use distinct output file names and a private copy of the query when '
+        'obsm_key is set',
+        'the model has ONE scratch root: a run that was given a second directory for temporary data (extended_result_dir of '
+        'a mapping run without tmp_dir; tmp_dir -- or, without one, the system temporary directory -- of a direct call of '
+        'the type-assignment stage when it differs from results_output_path) is encoded with the entries of that directory as '
+        'entries of the scratch root under reserved names (overlay_path), i.e. both directories are held to the rules of '
+        'the scratch root; concurrent pairs are run with one such directory only',
+        'the type-assignment stage (election_runner.run_type_assignment_on_h5ad) is called directly with the query-marker '
+        'cache built untraced the way _run_mapping builds it; stale chunk files are what the workers of an earlier run over '
+        'the same cell ids (other cells, other chunk size) write: the list that run returned, cut into its row chunks, '
+        'without the directly_assigned flag the stage adds after collecting; a direct call that FAILS is not required to '
+        'clean up (the property promises that for mapping runs only)',
         'tempfile uniqueness under concurrency is assumed (the two-run acceptor checks the observed names are distinct)',
         'generated references on which the untraced preparation (statistics, reference markers) itself raises are '
         'regenerated (counted in distribution.reference-preparation); such failures belong to C11/C13/C18',
